@@ -134,6 +134,57 @@ class Family:
     def export(self):
         return [self.export_class(c) for c in self.order]
 
+    # ---- payload classes (everything reachable that is not nested in the envelope)
+    def payload_closure(self):
+        seen = list(self.payload)
+        i = 0
+        while i < len(seen):
+            meta = XmlContext().build(seen[i], None)
+            for var in meta.get_all_vars():
+                for tp in var.types:
+                    if is_dataclass(tp) and tp not in self.ids and tp not in seen:
+                        seen.append(tp)
+            i += 1
+        return seen
+
+    def export_payload(self):
+        return [self.export_class(c) for c in self.payload_closure()]
+
+    # ---- values with XML names
+    def to_val(self, obj):
+        if obj is None:
+            return None
+        if isinstance(obj, bool):
+            return {"bool": obj}
+        if isinstance(obj, int):
+            return {"int": obj}
+        if isinstance(obj, str):
+            return {"str": obj}
+        if isinstance(obj, (list, tuple)):
+            return {"list": [self.to_val(x) for x in obj]}
+        if is_dataclass(obj):
+            meta = XmlContext().build(type(obj), None)
+            names = {v.name: v.local_name for v in meta.get_all_vars()}
+            return {"obj": self.cid(type(obj)), "fields": [[names.get(f.name, f.name), self.to_val(getattr(obj, f.name))] for f in fields(obj)]}
+        raise TypeError(type(obj).__name__)
+
+
+def datatypes():
+    out = []
+    for dt in DataType:
+        out.append([str(dt), PRIM_NAMES.get(dt.type) if dt.wrapper is None and dt.format is None else None])
+    return out
+
+
+def xml_names(data):
+    """element names of a document, full depth, read with lxml"""
+    from lxml import etree
+
+    def walk(el):
+        return {"q": el.tag, "c": [walk(c) for c in el if isinstance(c.tag, str)]}
+
+    return walk(etree.fromstring(data.encode() if isinstance(data, str) else data))
+
 
 def generated_classes(g):
     out = []
